@@ -117,6 +117,18 @@ func (h HistCase) Desc() string {
 	return s
 }
 
+// c02BadMarshal cannot be marshalled: its second field names an AVP no dictionary defines (the
+// first field is fine, so the struct walk has already produced an AVP when it fails).
+type c02BadMarshal struct {
+	OriginHost datatype.DiameterIdentity `avp:"Origin-Host"`
+	Nope       uint32                    `avp:"No-Such-AVP-Anywhere"`
+}
+
+// c02BadMarshalType cannot be marshalled either: the field type does not fit the AVP's data type.
+type c02BadMarshalType struct {
+	ResultCode struct{ X int } `avp:"Result-Code"`
+}
+
 type c02Marshal struct {
 	OriginHost datatype.DiameterIdentity `avp:"Origin-Host"`
 	ResultCode uint32                    `avp:"Result-Code"`
@@ -153,6 +165,13 @@ func histEval(c *Config, h HistCase) string {
 			case "insert":
 				m.InsertAVP(o.Atom.Lib())
 				model = append([]atoms.N{o.Atom}, model...)
+			case "marshal-rejected":
+				// a Marshal that fails leaves the message as it was (in particular its length)
+				if err := m.Marshal(&c02BadMarshal{OriginHost: "x.example", Nope: 1}); err == nil {
+					return fmt.Sprintf("op %d: Marshal of a struct naming an undefined AVP succeeded", i)
+				}
+				_ = m.Marshal(&c02BadMarshalType{})
+				_ = m.Marshal(c02Marshal{}) // not a pointer
 			case "marshal":
 				// Marshal replaces the AVP list by the struct's AVPs
 				src := &c02Marshal{OriginHost: "h.example", ResultCode: 2001}
@@ -206,7 +225,7 @@ func enumHistories(ctx *ev.Ctx, fn func(*Config, HistCase)) {
 		}
 	}
 	ops = append(ops, HistOp{Op: "new-int", Atom: base[0]}, HistOp{Op: "new-u32", Atom: base[1]}, HistOp{Op: "new-u32", Atom: base[4]}, HistOp{Op: "new-u32", Atom: base[6]},
-		HistOp{Op: "marshal"})
+		HistOp{Op: "marshal"}, HistOp{Op: "marshal-rejected"})
 	var rec func(prefix []HistOp)
 	rec = func(prefix []HistOp) {
 		if len(prefix) > 0 && ctx.Mine() {
@@ -265,7 +284,7 @@ func runC02(ctx *ev.Ctx) {
 			ctx.Report("", generalise(what), what+" | case: "+h.Desc(), map[string]interface{}{"hist": h})
 		}
 	})
-	ctx.Rule = rule + " PLUS every sequence of <=4 (thorough 5) assembly operations {NewAVP by int / uint32 / name, AddAVP, InsertAVP, Marshal} over seven atoms with payload length mod 4 = 0..3, with and without vendor id (one with a vendor id but no V flag given), checking Header.MessageLength and the reference image after every operation; PLUS complete sweeps (see sweep_* keys). WriteTo images are taken by a destination that lets another message pass through WriteTo on another writer before it consumes its bytes."
+	ctx.Rule = rule + " PLUS every sequence of <=4 (thorough 5) assembly operations {NewAVP by int / uint32 / name, AddAVP, InsertAVP, Marshal, a Marshal that is rejected} over seven atoms with payload length mod 4 = 0..3, with and without vendor id (one with a vendor id but no V flag given), checking Header.MessageLength and the reference image after every operation; PLUS complete sweeps (see sweep_* keys). WriteTo images are taken by a destination that lets another message pass through WriteTo on another writer before it consumes its bytes."
 	ctx.Assume = []string{"refcodec (independent RFC 6733 encoder/decoder, written from the RFC) is correct; self-tested against the RFC layouts"}
 }
 
